@@ -101,6 +101,7 @@ def pre_square2 := rep 5 tight
 def pre_pow2k_body := rep 5 tight
 def pre_conditional_select := rep 10 (ub (2 ^ 64 - 1)) ++ [ub 1]
 def pre_conditional_assign := rep 10 (ub (2 ^ 64 - 1)) ++ [ub 1]
+def pre_conditional_swap := rep 10 (ub (2 ^ 64 - 1)) ++ [ub 1]
 end FiatField51
 
 namespace FiatField26
@@ -122,6 +123,7 @@ def pre_square2 := tight
 def pre_pow2k_body := tight
 def pre_conditional_select := rep 20 (ub (2 ^ 32 - 1)) ++ [ub 1]
 def pre_conditional_assign := rep 20 (ub (2 ^ 32 - 1)) ++ [ub 1]
+def pre_conditional_swap := rep 20 (ub (2 ^ 32 - 1)) ++ [ub 1]
 end FiatField26
 
 namespace Clamp
@@ -318,6 +320,7 @@ def kernels : List (String × String × Prog × List Itv) := [
   ("FiatField51", "pow2k_body", Dalek.Gen.FiatField51.pow2k_body, FiatField51.pre_pow2k_body),
   ("FiatField51", "conditional_select", Dalek.Gen.FiatField51.conditional_select, FiatField51.pre_conditional_select),
   ("FiatField51", "conditional_assign", Dalek.Gen.FiatField51.conditional_assign, FiatField51.pre_conditional_assign),
+  ("FiatField51", "conditional_swap", Dalek.Gen.FiatField51.conditional_swap, FiatField51.pre_conditional_swap),
   ("FiatField26", "add", Dalek.Gen.FiatField26.add, FiatField26.pre_add),
   ("FiatField26", "add_ref", Dalek.Gen.FiatField26.add_ref, FiatField26.pre_add_ref),
   ("FiatField26", "sub", Dalek.Gen.FiatField26.sub, FiatField26.pre_sub),
@@ -332,6 +335,7 @@ def kernels : List (String × String × Prog × List Itv) := [
   ("FiatField26", "pow2k_body", Dalek.Gen.FiatField26.pow2k_body, FiatField26.pre_pow2k_body),
   ("FiatField26", "conditional_select", Dalek.Gen.FiatField26.conditional_select, FiatField26.pre_conditional_select),
   ("FiatField26", "conditional_assign", Dalek.Gen.FiatField26.conditional_assign, FiatField26.pre_conditional_assign),
+  ("FiatField26", "conditional_swap", Dalek.Gen.FiatField26.conditional_swap, FiatField26.pre_conditional_swap),
   ("Clamp", "clamp_integer", Dalek.Gen.Clamp.clamp_integer, Clamp.pre_clamp_integer),
   ("Avx2Field", "new", Dalek.Gen.Avx2Field.new, Avx2Field.pre_new),
   ("Avx2Field", "split", Dalek.Gen.Avx2Field.split, Avx2Field.pre_split),
